@@ -71,7 +71,9 @@ with open(os.path.join(LEAN, "I3", "Model", "SourcePin.lean"), "w") as f:
 for pid, res in SEL.items():
     sel = [k for k in keys if any(re.search(r, k) for r in res)]
     assert sel, pid
-    br = bridged_for(pid)
+    # Relaxation is OFF by default: T6's value semantics cannot see every change (two live names for one cell, nil,
+    # index out of range), so the pins stay as the complete backstop; `--relax` is for experiments only.
+    br = bridged_for(pid) if "--relax" in sys.argv else set()
     dropped = [k for k in sel if k in br]
     sel = [k for k in sel if k not in br]
     if dropped:
